@@ -5,8 +5,15 @@ unique marker), nor eight bytes of the marked text of such a file in its body (a
 cut to the size of a namesake, discloses part of a file); every target that climbs above the root
 is answered with an error status.  What a link of the tree itself points to is exempt.
 Generator: the segment grammar below, and the families of vlib/gen_c01.py (tree shapes and request
-classes the grammar does not reach; class table in the generator audit, AUDIT.md)."""
+classes the grammar does not reach; class table in the generator audit, AUDIT.md).
+Second audit pass (props/c01_features.py, class table AUDIT2.md): the relations a FEATURE added on this
+code path would hinge on - negotiation / conditional / host-like / prefix headers x targets x neighbours
+of files above the root, links of the owner that point out and what stands next to their targets, error
+pages and control files above the root, a large file, histories, two requests in one buffer, the buffer
+size - and the observation widened to every byte written (all buffers, a body decoded from gzip), the
+status of the final answer read without a table of known statuses."""
 from vlib import common as C, serve as S, reqgen as G, strict_http as H, servecheck as K, gen_c01 as X
+from props import c01_features as FT      # second audit pass: feature-style relations (header x target x neighbour x history), every buffer written
 
 DRIVERS = ['Serve']   # model driver files this check runs: scopes translator failures to the tables they (and the proofs) import
 TRUSTED = ['Linux path resolution on the generated trees (real files on disk through the harness)']
@@ -108,6 +115,9 @@ def build(rng, tier):
         cases = X.families(rng.fork('families-%d' % bi), tree, tier, bi)
         rng.fork('order-%d' % bi).shuffle(cases)      # families interleaved: every request has another history
         batches.append((tree, X.with_probes(rng, tree, cases)))
+    # second audit pass (props/c01_features.py): relations a FEATURE on this code path would hinge on, on trees that also hold the
+    # neighbours, pages and directories such a feature looks for
+    batches += FT.batches(rng.fork('features'), tier)
     return batches
 
 def link_target(tree, target):
@@ -158,7 +168,9 @@ def judge(res, results):
         head = r['head']
         if head.startswith(('panic', 'abort')):
             continue   # C04's finding
-        emitted = (r['writes'][0] if r['writes'] else b'') + (C.unhx(head[4:]) if head.startswith('ret:') and len(head) > 4 else b'')
+        # EVERY byte handed to the connection: the first buffer, all later ones (what the peer received), the value process_request returns
+        outs = FT.pieces(r)
+        emitted = outs[0] if outs else b''
         tb = c.target.encode('utf-8', 'surrogateescape')
         cl = K.climbs(tb)
         res.count(('climbing ' if cl else 'inside ') + c.entry)
@@ -171,33 +183,33 @@ def judge(res, results):
         # a file link with a climbing target asked for through a shallower directory link: open finding on the pinned tree (signature of its own)
         suffix = ':dir-link-textual' if c.kind == 'dirlink-textual' else ''
         leaked = False
-        if b'SECRET-' in emitted:
+        if any(b'SECRET-' in e for e in outs):
             for mk, p in outside_markers(c.tree):
                 if p == allowed: continue
-                if mk in emitted:
-                    res.fail('outside-file-served' + suffix, c.line[:300], emitted[:80].hex(), None,
-                             f'C01: target {c.target!r} ({c.entry}) returned the content of {p!r}, which lies outside the served directory {c.tree.cwd!r}')
+                hit = next((e for e in outs if mk in e), None)
+                if hit is not None:
+                    res.fail('outside-file-served' + suffix, c.line[:300], hit[:80].hex(), None,
+                             f'C01: target {c.target!r} ({c.entry}, {c.headers!r}) returned the content of {p!r}, which lies outside the served directory {c.tree.cwd!r}')
                     leaked = True
                     break
         if not leaked:
             # part of a file is content of the file as well (a Range, a read cut to the size of a namesake): eight bytes of the marked text of
-            # a file outside the root in the body of the answer
-            ret = C.unhx(head[4:]) if head.startswith('ret:') and len(head) > 4 else b''
-            pieces = ([r['writes'][0]] if r['writes'] else []) + ([ret] if ret and not (r['writes'] and ret == r['writes'][0]) else [])
-            p = next((q for q in (X.part_leak(c.tree, piece, allowed) for piece in pieces) if q is not None), None)
+            # a file outside the root in the body of an answer - of any answer, in any buffer
+            p = next((q for q in (X.part_leak(c.tree, piece, allowed) for piece in outs) if q is not None), None)
             if p is not None:
                 res.fail(('outside-file-served' + suffix) if suffix else 'outside-file-part-served', c.line[:300], emitted[-120:].hex(), None,
                          f'C01: target {c.target!r} ({c.entry}, {c.headers!r}) returned part of the content of {p!r}, which lies outside the served directory {c.tree.cwd!r}')
         # the status clause is the SERVER's (a target without a leading slash never reaches the handler there: 400); called directly,
         # the handler glues such a target to the host name of the URL it builds and looks the rest up INSIDE the root - only the
-        # leak clause above applies to that entry
+        # leak clause above applies to that entry.  The status is that of the FINAL answer (interim 1xx answers in front of it are
+        # skipped), read without a table of known statuses: 301, 304, 207 are not error statuses either
         if cl and not c.entry.startswith('aexec'):
-            resp, why = K.parse_resp(r['writes'][0] if r['writes'] else b'')
-            if resp is not None:
-                res.count(f'climbing status {resp["status"]}')
-                if resp['status'] < 400:
-                    res.fail('climb-not-error', c.line[:300], f'status {resp["status"]}', None,
-                             f'C01: target {c.target!r} climbs above the served directory but was answered {resp["status"]}')
+            st = next((x for x in (FT.final_status(e) for e in sorted(outs, key=len, reverse=True)) if x is not None), None)      # the longest piece is the whole stream
+            if st is not None:
+                res.count(f'climbing status {st}')
+                if st < 400:
+                    res.fail('climb-not-error', c.line[:300], f'status {st}', None,
+                             f'C01: target {c.target!r} ({c.headers!r}) climbs above the served directory but was answered {st}')
 
 def run(res, tier, seed):
     rng = C.Rng(seed)
@@ -210,6 +222,11 @@ def run(res, tier, seed):
         res.notes.append(note)
         res.disagree('real binary on a loopback socket', note[:300], 'built, started and answering', 'real-binary')
     judge(res, [(c, r, None, None) for c, r in real])
+    real2, note2 = FT.real_section(rng.fork('real-binary-features'), tier)
+    if note2:
+        res.notes.append(note2)
+        res.disagree('real binary on a loopback socket (feature campaign)', note2[:300], 'built, started and answering', 'real-binary')
+    judge(res, [(c, r, None, None) for c, r in real2])
     res.rule = ('trees with the root nested 0..4 levels deep and a uniquely marked secret at every ancestor level and in sibling directories; targets '
                 'from the segment grammar {.., ., empty, names, %2e%2e, ..%2f, ..%2F, %5C, ...., overlong/fullwidth dots, NUL} with repeated/trailing slashes, one in five with random characters percent-encoded in upper or lower hex, '
                 'query/fragment containing .., no leading slash, authority-like prefixes, backslashes; x Range in {none, 0-, multi, suffix} x both '
@@ -219,6 +236,14 @@ def run(res, tier, seed):
                 'segments / 60 000 bytes around the climb, prefix-named siblings, out-and-back targets, every method / version / line-end style, 18 Range shapes, climbs hidden in headers, '
                 'every name that exists above the root asked for plainly, every link plain and decorated, targets that climb only on disk (through an upward directory link), '
                 'encoded / look-alike dots and separators, backslashes, multi-byte directories, each lookup step aimed above the root, query / fragment in every order; a history probe after '
-                'every 24 cases; a sample of every family against the real binary on a loopback socket; distinct = (entry, request)')
+                'every 24 cases; a sample of every family against the real binary on a loopback socket; second pass (props/c01_features.py) on trees that also hold, at every level above the root, '
+                'precompressed / language / back-up neighbours of the secrets and namesakes, per-status error pages and per-directory control files, host- and locale-named directories, a 70 001-byte file, '
+                'and inside the root the conventional directories (vhosts/, de/, static/, users/ ...) and links of the owner that point out: Accept-Encoding / Accept-Language / Accept x climbing targets, '
+                'out-pointing links, namesakes; If-None-Match / If-Modified-Since / If-Range x the same; every error status provoked (400 403 404 416 501) with navigation headers; Host / X-Forwarded-* / '
+                'Forwarded values that climb x plain names that exist above the root, two host headers, prefixes to strip, users / themes named by the client; two and three requests in one buffer, Expect / '
+                'Upgrade / Transfer-Encoding in front of a climb; ranges into the large file; histories (same name inside and above the root in both orders, links answered with errors before plain '
+                'requests); absolute-form / authority-form / version-less requests; dots glued to directory names; the climb on the edge of request buffers of 64..10000 bytes; files named in bodies; '
+                'judged over every buffer written; against the real binary also neighbours with chosen ages, a 1.5 MB file, requests sent in two segments and 160 requests in flight on 8 connections; '
+                'distinct = (entry, request)')
     for c, r, il, ml in results[:3]:
         res.sample({'entry': c.entry, 'target': c.target, 'status_line': r['recv'][:30].decode('latin1')})
